@@ -125,6 +125,8 @@ def get_ranges(headervalue, content_length):
                 # did not exist. (Normally, this means return a 200
                 # response containing the full entity)."
                 return None
+            # A last-byte-pos beyond the end means "up to the last byte"
+            stop = min(stop, content_length - 1)
             # Prevent duplicate ranges. See Issue #59
             if (start, stop + 1) not in result:
                 result.append((start, stop + 1))
